@@ -589,6 +589,7 @@ class Unit:
         self.emit("// @src %s:%d-%d fn %s  sha256=%s" % (args["file"], fn["line_start"], fn["line_end"], fid, sha[:16]), None)
         if "attr" in args:
             self.emit(unesc(args["attr"]), "sidecar:%s:%d" % (rel, startline))
+            fn["attr"] = unesc(args["attr"])
         fn["gen_start"] = len(self.lines) + 1
         self.cur_fn = fn
         for l in sig.split("\n"):
